@@ -6,7 +6,7 @@
 //@ struct file=src/sys/fs/memfs/file.rs name=MemfsFile
 //@ endstruct
 //@ struct file=src/sys/fs/memfs/entry.rs name=MemfsEntry
-//@ rw R4 1 ⟦Option<HashSet<String>>⟧ => ⟦Option<NameSet>⟧
+//@ rw R4 * ⟦Option<HashSet<String>>⟧ => ⟦Option<NameSet>⟧
 //@ endstruct
 
 #[verifier::external_body]
@@ -316,7 +316,7 @@ pub proof fn lemma_remove_frame(cur: St, s0: St, a: PathV, q: PathV)
 //@ rw R11 1 ⟦self._abs(&guard, path)?⟧ => ⟦_abs(guard, path0)?⟧
 //@ rw R9 1 ⟦let mut paths = vec![path];⟧ => ⟦let mut paths = vec_of1(path);⟧
 //@ rw R3 1 ⟦for name in files {⟧ => ⟦for name in files.iter() {⟧
-//@ rw R1 1 ⟦paths.push(path.mash(name));⟧ => ⟦paths.push(path.mash_name(&name));⟧
+//@ rw R1 * ⟦paths.push(path.mash(name));⟧ => ⟦paths.push(path.mash_name(&name));⟧
 //@ rw R3 1 for
 //@ ins after ⟦let mut paths = vec_of1(path);⟧
         let ghost s0 = guard.st();
